@@ -222,6 +222,9 @@ type Replay struct {
 // Finish applies known findings, floors, prints the verdict lines, writes evidence and (on
 // violation) a replay file.  It returns the process exit code.
 func (r *Report) Finish(verifDir, tier string, seed int, wall float64, fs *Findings, cov map[string]any, assumptions []string, explanation string) int {
+	if o := os.Getenv("VERIF_OUT"); o != "" {
+		verifDir = o // selftests write their evidence elsewhere
+	}
 	var violating []*Obligation
 	knownLines := map[string]bool{}
 	for _, o := range r.Obs {
